@@ -205,6 +205,11 @@ pub fn run_c10(seed: u64, n: usize, out: &mut Out) {
     for src in [
         "struct R { #[darling(flatten)] a: A, #[darling(flatten)] b: B }",
         "struct R { #[darling(flatten)] a: A, b: B, #[darling(flatten)] c: C, #[darling(flatten)] d: D }",
+        // the one-flatten rule holds for every field list: the fields of a struct variant too
+        "enum E { A, V { #[darling(flatten)] a: A, #[darling(flatten)] b: B, c: u8 } }",
+        "enum E { V { #[darling(flatten)] a: A }, W { #[darling(flatten)] b: B, #[darling(flatten)] c: C, #[darling(flatten)] d: D } }",
+        "enum E { V { #[darling(flatten)] a: A }, W { #[darling(flatten)] b: B } }",
+        "enum E { #[darling(skip)] V { #[darling(flatten)] a: A, #[darling(flatten)] b: B } , W }",
         "enum E { #[darling(word)] A, #[darling(word)] B, C }",
         "enum E { #[darling(word)] A, B(u8), #[darling(word)] C { x: u8 } }",
         "enum E { #[darling(word)] A(u8) }",
@@ -258,6 +263,34 @@ pub fn run_c10(seed: u64, n: usize, out: &mut Out) {
         "#[darling(attributes(a))] struct R { ident: syn::Ident, vis: syn::Visibility, generics: syn::Generics, data: D, ty: syn::Type, discriminant: X, fields: F, bounds: B, default: Dd }",
     ] {
         emit(out, src, &mut id);
+    }
+    // every unordered pair of container options in both orders and both attribute splits, on a struct
+    // and on an enum body: the members of a group `o-<pair>_<body>_<derive>-<k>` differ in order and
+    // split only, so the derive must accept all of them or none (judged on the implementation's
+    // answers by the check, besides the comparison of every member with the model)
+    let mut pair = 0usize;
+    for (i, a) in CONTAINER_OPTS.iter().enumerate() {
+        for b in CONTAINER_OPTS.iter().skip(i + 1) {
+            for (bi, body) in ["struct R { f: u8, g: String }", "enum E { A, B(u8) }", "struct R { ident: syn::Ident, f: u8 }"].iter().enumerate() {
+                let variants = [
+                    format!("#[darling({}, {})] {}", a, b, body),
+                    format!("#[darling({}, {})] {}", b, a, body),
+                    format!("#[darling({})] #[darling({})] {}", a, b, body),
+                    format!("#[darling({})] #[darling({})] {}", b, a, body),
+                ];
+                for (k, src) in variants.iter().enumerate() {
+                    if let Ok(di) = syn::parse_str::<syn::DeriveInput>(src) {
+                        for (name, f) in DERIVES {
+                            let (case, ans) = case_for(name, *f, &di);
+                            out.stat(if ans == "(impl)" { "accepted" } else if ans.starts_with("(errors") { "rejected" } else if ans == "(panic)" { "panicked" } else { "other" }, 1);
+                            out.stat("container_pair_order_members", 1);
+                            out.case_id("recv", &format!("o-{}_{}_{}-{}", pair, bi, name, k), &case, &ans);
+                        }
+                    }
+                }
+            }
+            pair += 1;
+        }
     }
     let _ = seed;
 }
